@@ -1055,6 +1055,9 @@ Definition past_unlock (d : dir) (p : bapc) : bool :=
   | _, _ => false
   end.
 
+Definition b5_pc (d : dir) (p : bapc) : bool :=
+  match p with BU_5 d' => dir_eqb d d' | _ => false end.
+
 Definition drained_pc (d : dir) (p : bapc) : bool :=
   match p with BU_6 d' | BU_5 d' => dir_eqb d d' | _ => false end.
 
@@ -1068,7 +1071,7 @@ Record QA (held : list msg) (sp : list chunk) (d : dir) (s : bstate) : Prop := m
   qa_eq : d_peer (bside d s) ++ ahand d (b_apc s) ++ d_lq (bside d s) = held;
   qa_unl : d_locked (bside d s) = false -> d_lq (bside d s) = [];
   qa_dr : drained_pc d (b_apc s) = true -> d_lq (bside d s) = [];
-  qa_b5 : (exists d', b_apc s = BU_5 d' /\ dir_eqb d d' = true) -> d_locked (bside d s) = false;
+  qa_b5 : b5_pc d (b_apc s) = true -> d_locked (bside d s) = false;
   qa_past : past_unlock d (b_apc s) = true -> d_locked (bside d s) = false
 }.
 
@@ -1196,24 +1199,138 @@ Proof.
     rewrite Hq, Ha in Heq. rewrite !app_nil_r in Heq. rewrite Heq. reflexivity.
 Qed.
 
+Lemma QB_lk : forall h sp x k,
+  QB h sp x -> QB h sp (sset_o (d_ev_o x) (d_cpc x) (d_locked x) k (d_lq x) (d_deliv_o x) (d_lost x) x).
+Proof. intros h sp x k []. constructor; auto. Qed.
+
 Ltac qa_fin :=
   repeat match goal with
   | H : _ /\ _ |- _ => destruct H
   end;
-  repeat split; auto; intros; cbn in *; try discriminate; try congruence; auto.
+  repeat split; auto; intros; cbn in *; try discriminate; try congruence; auto;
+  try (match goal with H : ?A -> _ :: _ = [] , H' : ?A |- _ => specialize (H H'); discriminate end);
+  try (rewrite <- app_assoc; assumption).
 
 Lemma QInv_step_A : forall hi ho spi spo q s,
   QInv hi ho spi spo s -> QInv hi ho spi spo (bstep_A (mkBC false q) s).
 Proof.
   intros hi ho spi spo q s H. unfold QInv in *.
   destruct (bdone s) eqn:Ed.
-  - unfold bstep_A. destruct (b_apc s); try discriminate. rewrite Ed. exact H.
+  - assert (E : bstep_A (mkBC false q) s = s)
+      by (unfold bstep_A; unfold bdone in Ed; destruct (b_apc s); try discriminate; reflexivity).
+    rewrite E, Ed. exact H.
   - destruct H as (HI & HO).
     pose proof HI as [(I1 & I2 & I3 & I4 & I5 & I6 & I7 & I8 & I9) Ic Ir Ie Iu Idr Ib5 Ip].
     pose proof HO as [(O1 & O2 & O3 & O4 & O5 & O6 & O7 & O8 & O9) Oc Or Oe Ou Odr Ob5 Op].
     unfold bstep_A. cbn [legacy_ctor].
     destruct (b_apc s) eqn:Ea; try discriminate; try destruct d; cbn [bside] in *.
     all: split_match.
-    all: cbn [bdone bset_a b_apc].
-    all: try (split; constructor; cbn; rewrite ?Ea in *; cbn in *; qa_fin; fail).
-Abort.
+    all: cbn [bdone bset_a b_apc after_side] in *; try discriminate.
+    all: try (split; constructor; cbn; rewrite ?Ea, ?Heql in *; cbn in *; qa_fin; fail).
+    + (* the output connector is not locked: __init__ returns *)
+      split.
+      * apply (QB_of_QA hi spi DIn s); auto; rewrite ?Ea; cbn; auto;
+          try (apply Iu; apply Ip; rewrite ?Ea; reflexivity).
+      * apply (QB_of_QA ho spo DOut s); auto; rewrite ?Ea; cbn; auto.
+    + (* the output connector has been unlocked: __init__ returns *)
+      split.
+      * apply (QB_of_QA hi spi DIn s); auto; rewrite ?Ea; cbn; auto;
+          try (apply Iu; apply Ip; rewrite ?Ea; reflexivity).
+      * cbn. apply QB_lk. apply (QB_of_QA ho spo DOut s); auto; rewrite ?Ea; cbn; auto;
+          try (apply Odr; rewrite ?Ea; reflexivity).
+Qed.
+
+Lemma QInv_act : forall hi ho spi spo a s,
+  QInv hi ho spi spo s -> QInv hi ho spi spo (bact (mkBC false true) a s).
+Proof.
+  intros hi ho spi spo a s H. destruct a; cbn [bact].
+  - apply QInv_step_A; auto.
+  - apply QInv_side_step; auto using QB_R. intros; eapply QA_idle_R; eauto.
+  - apply QInv_side_step; auto using QB_C'. intros; eapply QA_idle_C; eauto.
+  - apply QInv_side_step; auto using QB_X. intros; eapply QA_idle_X; eauto.
+  - cbn [quiet]. destruct (bdone s) eqn:Ed; cbn [andb negb]; auto.
+    unfold QInv in *. rewrite bdone_bupd, Ed in *. destruct H as (H1 & H2).
+    destruct d; cbn; split; auto using QB_emit.
+  - auto.
+Qed.
+
+Lemma QInv_init : forall li hi spi lo ho spo,
+  (li = false -> hi = []) -> (lo = false -> ho = []) ->
+  QInv hi ho spi spo (binit2 (sinit li hi [] spi) (sinit lo ho [] spo)).
+Proof.
+  intros li hi spi lo ho spo Hi Ho. unfold QInv. cbn.
+  split; constructor; cbn; auto; try (intros; discriminate); repeat split; auto.
+Qed.
+
+Lemma QInv_run : forall hi ho spi spo l s0,
+  QInv hi ho spi spo s0 -> QInv hi ho spi spo (brun (mkBC false true) l s0).
+Proof.
+  intros hi ho spi spo. unfold brun. induction l as [|a l IH]; intros s0 H0; cbn; auto.
+  apply IH. apply QInv_act; auto.
+Qed.
+
+(** bridge_quiet_link: when the bridge is created on a quiet link (no event pending in the
+    old connectors, the devices only emit once Bridge.__init__ has returned), then under EVERY
+    schedule, in BOTH directions and for messages of EVERY kind: once __init__ has returned,
+    what was relayed, followed by what is on its way through the wrapper, is exactly what was
+    held followed by what the device emitted -- so at quiescence every message has been
+    relayed exactly once and in order. *)
+Lemma bridge_quiet_link :
+  forall li hi spi lo ho spo sched,
+    (li = false -> hi = []) -> (lo = false -> ho = []) ->
+    let s := brun (mkBC false true) sched (binit2 (sinit li hi [] spi) (sinit lo ho [] spo)) in
+    bdone s = true ->
+    QB hi spi (b_in s) /\ QB ho spo (b_out s).
+Proof.
+  intros li hi spi lo ho spo sched Hi Ho s Hd.
+  assert (H : QInv hi ho spi spo s).
+  { apply QInv_run. apply QInv_init; auto. }
+  unfold QInv in H. rewrite Hd in H. exact H.
+Qed.
+
+Lemma bridge_quiet_link_quiescent :
+  forall li hi spi lo ho spo sched,
+    (li = false -> hi = []) -> (lo = false -> ho = []) ->
+    let s := brun (mkBC false true) sched (binit2 (sinit li hi [] spi) (sinit lo ho [] spo)) in
+    bquiet s = true ->
+    d_peer (b_in s) = hi ++ msgs_of (concat spi) /\ d_peer (b_out s) = ho ++ msgs_of (concat spo).
+Proof.
+  intros li hi spi lo ho spo sched Hi Ho s Hq.
+  unfold bquiet in Hq. apply andb_true_iff in Hq as [Hq Hq2]. apply andb_true_iff in Hq as [Hd Hq1].
+  destruct (bridge_quiet_link li hi spi lo ho spo sched Hi Ho Hd) as (H1 & H2). fold s in H1, H2.
+  assert (L : forall h sp x, QB h sp x -> squiet x = true -> d_peer x = h ++ msgs_of (concat sp)).
+  { intros h sp x [_ _ Hrb _ Heq] Q. unfold squiet in Q. unfold shand_x, shand_r in Heq.
+    destruct (d_rpc x) eqn:Er; try discriminate. destruct (d_cpc x); try discriminate.
+    destruct (d_xpc x); try discriminate. destruct (d_wire x); try discriminate.
+    destruct (d_spont x); try discriminate. destruct (d_ev_o x); try discriminate.
+    destruct (d_ev_w x); try discriminate. rewrite (Hrb eq_refl) in Heq. cbn in Heq.
+    rewrite app_nil_r in Heq. exact Heq. }
+  split; eapply L; eauto.
+Qed.
+
+Definition nv5_sched : list action :=
+  [Emit; Step TR; Step TR; Step TR; Step TR; Step TR; Step TR; Step TC; Step TC; Step TC; Step TC; Step TC;
+   Step TA; Step TA; Emit] ++ concat (repeat [Step TA; Step TR; Step TC] 24).
+
+Lemma nonvacuous5 :
+  let cfg := mkConfig true false 3 false false false false in
+  lock_wf true [OUnlock] /\
+  let s := run cfg nv5_sched (init cfg [OUnlock] [[Some (mkMsg 0 1 true)]; [Some (mkMsg 0 2 true)]] true) in
+  dispatched s = [mkMsg 0 1 true; mkMsg 0 2 true] /\ locked_q s = [] /\ locked s = false.
+Proof. cbv zeta. split; [exact I|]. vm_compute. repeat split; reflexivity. Qed.
+
+(** Non-vacuity of the quiet-link theorem: both connectors locked, holding an ordinary PDU, a
+    packet-type message without scapy counterpart (class 13) and another PDU; each device then
+    emits one more message (a non-packet one on the input side). *)
+Definition nvq_hi := [mkMsg 0 1 true; mkMsg 13 2 true; mkMsg 0 3 true].
+Definition nvq_ho := [mkMsg 0 11 true; mkMsg 13 12 true].
+Definition nvq_sched : list baction :=
+  repeat BA 60 ++ [BEmit DIn; BEmit DOut]
+  ++ concat (repeat [BR DIn; BX DIn; BR DOut; BX DOut] 12).
+
+Lemma nonvacuous_quiet :
+  let s := brun (mkBC false true) nvq_sched
+             (binit2 (sinit true nvq_hi [] [[Some (mkMsg 7 4 false)]]) (sinit true nvq_ho [] [[Some (mkMsg 0 13 true)]])) in
+  bquiet s = true
+  /\ d_peer (b_in s) = nvq_hi ++ [mkMsg 7 4 false] /\ d_peer (b_out s) = nvq_ho ++ [mkMsg 0 13 true].
+Proof. vm_compute. repeat split; reflexivity. Qed.
